@@ -145,7 +145,10 @@ class Check(BaseCheck):
                 rec.violation('C13/datetime-does-not-round-trip' + self.where(D(a.year, a.month, a.day)), date=a, serial=sa, back=back)
             # strict monotonicity against a later date-time: 1 ms later, later the same day, or random
             k = rnd.random()
-            b = a + datetime.timedelta(milliseconds=1) if k < 0.4 else (a + datetime.timedelta(milliseconds=rnd.randrange(1, 86400000)) if k < 0.7 else self.rand_dt(rnd))
+            try:
+                b = a + datetime.timedelta(milliseconds=1) if k < 0.4 else (a + datetime.timedelta(milliseconds=rnd.randrange(1, 86400000)) if k < 0.7 else self.rand_dt(rnd))
+            except OverflowError:       # a is in the last day of year 9999
+                continue
             if b > top or b == a:
                 continue
             lo, hi = (a, b) if a < b else (b, a)
